@@ -169,3 +169,47 @@ Proof.
   assert (I0 : att_ok g_init) by (split; cbn; intros; contradiction).
   destruct (A evs g_init I0) as [_ U]. apply U.
 Qed.
+
+(* ---- a validator that did not ACCEPT ----
+   A validator consulted by the library accepts, rejects or TERMINATES WITH AN EXCEPTION (its certificate fetch timed
+   out, was nacked, the face went down).  The last two have in common that no accepting verdict exists: the histories
+   give such a validator a non-passing verdict (V2: 0 1 2, 5 = raised; V1: 0 = falsy or raised).  Whatever the reason,
+   an Interest whose validator did not accept reaches a handler only if it needed no application validator:
+   it is plain, or (legacy) it is unsigned, or the library default sha256_digest_checker was in force and had
+   nothing to object. *)
+Lemma may_deliver_no_accept fe own k :
+  may_deliver fe own k = true -> pass fe (k_verdict k) = false ->
+  plain k = true \/
+  (fe = V1 /\ k_digest_ok k = true /\ (signed k = false \/ (own = false /\ (k_sig k =? 2) = false))).
+Proof.
+  unfold may_deliver, validator_accepts. intros M P.
+  destruct (plain k) eqn:EP; [left; reflexivity|right].
+  destruct fe; rewrite ?P in M; cbn [orb] in M.
+  - destruct (k_digest_ok k), own; cbn in M; discriminate M.
+  - split; [reflexivity|].
+    destruct (k_digest_ok k); cbn [andb] in M; [split; [reflexivity|]|discriminate M].
+    destruct (signed k) eqn:ES; cbn [negb orb] in M; [right|left; reflexivity].
+    destruct own; [discriminate M|]. split; [reflexivity|].
+    destruct (k_sig k =? 2); [discriminate M|reflexivity].
+Qed.
+
+Theorem suspended_no_accept fe evs h k :
+  In (h, k) (g_hc (g_run fe evs)) -> pass fe (k_verdict k) = false ->
+  plain k = true \/
+  (fe = V1 /\ k_digest_ok k = true /\
+   (signed k = false \/ ((k_sig k =? 2) = false /\ exists p, In (h, (p, false)) (g_att (g_run fe evs))))).
+Proof.
+  intros I P. destruct (suspended_gate fe evs h k I) as (p & hasv & dv & IA & _ & M).
+  destruct (may_deliver_no_accept _ _ _ M P) as [H|(F & D & H)]; [left; exact H|right].
+  split; [exact F|]. split; [exact D|]. destruct H as [H|[O S]]; [left; exact H|right].
+  split; [exact S|]. subst fe. unfold in_force in O. destruct hasv; [discriminate O|]. exists p. exact IA.
+Qed.
+
+Theorem interest_no_accept fe h hd k :
+  In (hd, k) (hcalls (run_hist fe h)) -> pass fe (k_verdict k) = false ->
+  plain k = true \/ (fe = V1 /\ k_digest_ok k = true /\ (signed k = false \/ (k_sig k =? 2) = false)).
+Proof.
+  intros I P. destruct (interest_gate fe h hd k I) as [own M].
+  destruct (may_deliver_no_accept _ _ _ M P) as [H|(F & D & H)]; [left; exact H|right].
+  split; [exact F|]. split; [exact D|]. destruct H as [H|[_ S]]; [left; exact H|right; exact S].
+Qed.
